@@ -61,6 +61,8 @@ type Path struct {
 	memo      map[string]interface{}
 	facts     map[string]bool
 	alpha     map[string]*[256]bool // term -> allowed bytes
+	interp    *interpreter
+	classCons []classCon // regular-language class constraints, asserted only for short strings
 }
 
 type observation struct {
@@ -216,6 +218,12 @@ func (p *Path) refineCmp(op string, x, y value) {
 	p.varIv[xs.e] = iv
 }
 
+type classCon struct {
+	term  *Sym
+	re    string
+	class string
+}
+
 // query text for the current path condition plus extra assertions; full
 // includes the lazily kept heavy constraints.
 func (p *Path) queryText(full bool, extra ...string) string {
@@ -230,6 +238,15 @@ func (p *Path) queryText(full bool, extra ...string) string {
 		b.WriteString(")\n")
 	}
 	if full {
+		for _, cc := range p.classCons {
+			// long class-constrained strings are out of the string solvers' reach
+			// (measured: |s| ~ 670 with s in ws* times out); for them the
+			// constraint is dropped (sound for "holds") and models are projected
+			_, hi := p.ivOf(p.mkLen(cc.term))
+			if hi != nil && hi.IsInt64() && hi.Int64() <= 64 {
+				b.WriteString("(assert (str.in_re " + cc.term.e + " " + cc.re + "))\n")
+			}
+		}
 		for _, c := range p.lazy {
 			b.WriteString("(assert ")
 			b.WriteString(c)
@@ -274,3 +291,43 @@ func (p *Path) noContain(e string, c string) bool {
 }
 
 func (p *Path) setAlpha(e string, allowed *[256]bool) { p.alpha[e] = allowed }
+
+// validEq asks the solver whether a = b follows from the path condition.
+func (p *Path) validEq(a, b value) bool {
+	if tInt(a) == tInt(b) {
+		return true
+	}
+	c := p.mkIntCmp("=", a, b)
+	if cb, ok := c.(bool); ok {
+		return cb
+	}
+	if p.interp == nil {
+		return false
+	}
+	key := "valideq|" + tInt(a) + "|" + tInt(b) + "|" + fmt.Sprint(len(p.pc))
+	if v, ok := p.memo[key]; ok {
+		return v.(bool)
+	}
+	r := p.interp.solveFeas([]string{"(not " + tBool(c) + ")"})
+	ok := r.res == "unsat"
+	p.memo[key] = ok
+	return ok
+}
+
+// validCond asks the solver whether c follows from the path condition.
+func (p *Path) validCond(c value) bool {
+	if cb, ok := c.(bool); ok {
+		return cb
+	}
+	if p.interp == nil {
+		return false
+	}
+	key := "valid|" + tBool(c) + "|" + fmt.Sprint(len(p.pc))
+	if v, ok := p.memo[key]; ok {
+		return v.(bool)
+	}
+	r := p.interp.solveFeas([]string{"(not " + tBool(c) + ")"})
+	ok := r.res == "unsat"
+	p.memo[key] = ok
+	return ok
+}
